@@ -66,17 +66,32 @@ func infoOf(name string) *linter.CheckerInfo {
 	panic("no checker " + name)
 }
 
-// runWith runs checker with params overridden through the info (the integrator's way).
+// runWith runs checker with params overridden through the info (the integrator's way). An integrator may either write
+// the registered cell (`info.Params[k].Value = v`) or put a cell of its own into the table (`info.Params[k] = &CheckerParam{...}`);
+// both are overrides of the registered default and alternate from call to call.
+var runWithCalls int
+
 func (e *pkgEnv) runWith(checker string, params map[string]interface{}) ([]linter.Warning, error) {
 	info := infoOf(checker)
-	saved := map[string]interface{}{}
+	runWithCalls++
+	replaceEntry := runWithCalls%2 == 0
+	savedVal := map[string]interface{}{}
+	savedCell := map[string]*linter.CheckerParam{}
 	for k, v := range params {
-		saved[k] = info.Params[k].Value
-		info.Params[k].Value = v
+		if replaceEntry {
+			savedCell[k] = info.Params[k]
+			info.Params[k] = &linter.CheckerParam{Value: v, Usage: info.Params[k].Usage}
+		} else {
+			savedVal[k] = info.Params[k].Value
+			info.Params[k].Value = v
+		}
 	}
 	defer func() {
-		for k, v := range saved {
+		for k, v := range savedVal {
 			info.Params[k].Value = v
+		}
+		for k, c := range savedCell {
+			info.Params[k] = c
 		}
 	}()
 	ctx := linter.NewContext(e.fset, types.SizesFor("gc", runtime.GOARCH))
@@ -132,8 +147,8 @@ func Run(tier string, seed int64, outDir string) *common.Meta {
 
 	// ---------- 1. threshold constructs ----------
 	var src strings.Builder
-	src.WriteString("package c14\n\n")
-	line := 3
+	src.WriteString("package c14\n\ntype recvT struct{}\n\n")
+	line := 5
 	var cons []construct
 	emit := func(kind string, measure int, extra string, text string, warnLineOffset int) {
 		n := strings.Count(text, "\n")
@@ -170,6 +185,24 @@ func Run(tier string, seed int64, outDir string) *common.Meta {
 			ret = " return " + strings.Join(zeros, ", ") + " "
 		}
 		emit("results", n, "", fmt.Sprintf("func tm%d()%s {%s}\n\n", n, sig, ret), 0)
+		// the same number of results in the other spellings of a result list: every result named on its own, all names
+		// grouped under one type, groups of mixed sizes and types (the measure is the number of RESULTS, not of fields)
+		if n > 0 {
+			names := make([]string, n)
+			for i := range names {
+				names[i] = fmt.Sprintf("r%d", i)
+			}
+			each := make([]string, n)
+			for i := range each {
+				each[i] = names[i] + " int"
+			}
+			emit("results", n, "", fmt.Sprintf("func tmEach%d() (%s) { return }\n\n", n, strings.Join(each, ", ")), 0)
+			emit("results", n, "", fmt.Sprintf("func tmGroup%d() (%s int) { return }\n\n", n, strings.Join(names, ", ")), 0)
+			if n >= 3 {
+				emit("results", n, "", fmt.Sprintf("func tmMixed%d() (%s int, %s string, %s error) { return }\n\n", n, strings.Join(names[:n-2], ", "), names[n-2], names[n-1]), 0)
+			}
+			emit("results", n, "", fmt.Sprintf("func (recvT) tmMethod%d() (%s int) { return }\n\n", n, strings.Join(names, ", ")), 0)
+		}
 	}
 	for n := 0; n <= 8; n++ {
 		body := strings.Repeat("\t\t\tsink++\n", n)
